@@ -6,6 +6,8 @@ open PdModel.Config PdModel.Spec
 #print axioms rejected_leaves_served_unchanged
 #print axioms accepted_is_stored
 #print axioms accepted_is_reloaded
+#print axioms reload_serves_storage
+#print axioms foreign_write_keeps_served
 #print axioms normalise_of_accepted_sched
 #print axioms accepted_in_domain
 #print axioms out_of_domain_sched_rejected
